@@ -3,6 +3,7 @@ package main
 // Path exploration by re-execution with a decision prefix.
 
 import (
+	"hash/fnv"
 	"fmt"
 	"go/types"
 	"os"
@@ -86,7 +87,7 @@ type Explorer struct {
 	Samples      []map[string]any
 	PassSamples  []*Violation // passing paths kept for native validation (-validate N)
 	validateN    int
-	nextPass     int
+	passMaxHash  uint64
 	SymVars      int
 	MaxSymVars   int
 	Steps        int64
@@ -966,11 +967,17 @@ func (w *worker) runPath(prefix []decision, hint Model) {
 		}()
 	}
 
-	// a passing path kept for validation against the native build
+	// passing paths kept for validation against the native build: the N paths
+	// whose decision trail has the smallest hash, so that the choice does not
+	// depend on the order in which the workers finish
 	var passSample *Violation
+	var passHash uint64
 	if E.validateN > 0 && p.outcome == outReturn && !p.violated && len(p.inconcl) == 0 && !p.concrete {
+		hh := fnv.New64a()
+		hh.Write([]byte(trailString(p.trail)))
+		passHash = hh.Sum64()
 		E.mu.Lock()
-		want := len(E.PassSamples) < E.validateN && E.Paths+1 >= E.nextPass
+		want := len(E.PassSamples) < E.validateN || passHash < E.passMaxHash
 		E.mu.Unlock()
 		if want {
 			func() {
@@ -982,7 +989,7 @@ func (w *worker) runPath(prefix []decision, hint Model) {
 					}
 					sort.Strings(reached)
 					passSample = &Violation{Harness: E.H.Func, Kind: "pass", Model: p.modelCopy(m), Trail: append([]decision{}, p.trail...),
-						Params: E.params, Observed: reached, HashIns: p.i.hashInsDescr()}
+						Params: E.params, Observed: reached, HashIns: p.i.hashInsDescr(), Detail: fmt.Sprintf("%016x", passHash)}
 				}
 			}()
 		}
@@ -991,9 +998,15 @@ func (w *worker) runPath(prefix []decision, hint Model) {
 	// collect
 	E.mu.Lock()
 	E.Paths++
-	if passSample != nil && len(E.PassSamples) < E.validateN {
+	if passSample != nil {
 		E.PassSamples = append(E.PassSamples, passSample)
-		E.nextPass = E.Paths*4 + 3
+		sort.Slice(E.PassSamples, func(a, b int) bool { return E.PassSamples[a].Detail < E.PassSamples[b].Detail })
+		if len(E.PassSamples) > E.validateN {
+			E.PassSamples = E.PassSamples[:E.validateN]
+		}
+		if len(E.PassSamples) == E.validateN {
+			fmt.Sscanf(E.PassSamples[len(E.PassSamples)-1].Detail, "%x", &E.passMaxHash)
+		}
 	}
 	E.Outcomes[outcomeNames[p.outcome]]++
 	E.Decisions += len(p.trail)
